@@ -350,6 +350,21 @@ def export_lines(sol, solver, im, work, idx, k):
             lines.append('NOTE smt2 equivalence undecided')
     except z3.Z3Exception as e:
         probs.append(('smt2_does_not_parse', str(e)[:200]))
+    # a second reader: a solver that loads the file as a script (it obeys the commands of the file, set-logic included) must
+    # accept it and give the verdict a plain solver gives on the assertions of the exporting solver
+    try:
+        s2 = z3.Solver()
+        s2.set('timeout', 10000)
+        s2.from_file(fn)
+        r2 = s2.check()
+        s3 = z3.Solver()
+        s3.set('timeout', 10000)
+        s3.add(list(solver._solver.assertions()))
+        r3 = s3.check()
+        if z3.unknown not in (r2, r3) and r2 != r3:
+            probs.append(('smt2_script_verdict', 'the exported file, loaded as a script, is %s; the assertions of the solver are %s' % (r2, r3)))
+    except z3.Z3Exception as e:
+        probs.append(('smt2_script_rejected', str(e)[:200]))
     os.remove(fn)
     return lines, probs
 
@@ -400,8 +415,12 @@ def gantt_lines(sol):
         if abs(v - round(v)) > 1e-6:
             probs.append(('gantt_coordinate_off_grid', repr(x)))
         return int(round(v))
-    for mode in ('Resource', 'Task'):
-        plt.close('all')
+    # the third and fourth charts are drawn while the previous chart of the same solution is still open (a caller that
+    # renders several charts before showing them): each chart is its own figure
+    passes = [('Resource', True), ('Task', True), ('Task', False), ('Resource', False)]
+    for pi, (mode, fresh) in enumerate(passes):
+        if fresh:
+            plt.close('all')
         try:
             with warnings.catch_warnings():
                 warnings.simplefilter('ignore')
@@ -423,9 +442,11 @@ def gantt_lines(sol):
         for (x, w, y, h), ((tx, ty), txt) in zip(bars, texts):
             if abs(h - 2) > 1e-9 or abs(y / 2 - round(y / 2)) > 1e-9 or abs(ty - (y + 1)) > 1e-9:
                 probs.append(('gantt_row_geometry', '%r' % ((x, w, y, h, tx, ty),)))
-            lines.append('GANTT %s %d %s %s %s %s' % (mode, int(round(y / 2)), show_z(t20(x)), show_z(t20(w)), show_z(t20(tx)), txt))
+            if fresh:
+                lines.append('GANTT %s %d %s %s %s %s' % (mode, int(round(y / 2)), show_z(t20(x)), show_z(t20(w)), show_z(t20(tx)), txt))
         for lab in ax.get_yticklabels():
-            lines.append('LABEL %s %s' % (mode, lab.get_text()))
+            if fresh:
+                lines.append('LABEL %s %s' % (mode, lab.get_text()))
         # direct check of the clauses on the artists
         eff = mode if sol.resources else 'Task'
         got = collections.Counter()
@@ -445,7 +466,8 @@ def gantt_lines(sol):
         if got != want:
             miss = list((want - got).elements())[:2]
             extra_ = list((got - want).elements())[:2]
-            probs.append(('gantt_bars_differ_from_solution', '%s view: missing %s, unexpected %s' % (eff, miss, extra_)))
+            probs.append(('gantt_bars_differ_from_solution' if fresh else 'gantt_second_chart_differs_from_solution',
+                          '%s view: missing %s, unexpected %s' % (eff, miss, extra_)))
         if mode == 'Resource' and len(fig.axes) > 1:
             want_steps = collections.Counter()
             for bname, b in sol.buffers.items():
@@ -466,10 +488,34 @@ def gantt_lines(sol):
                 for j in range(0, len(xd) - 1, 3):
                     if abs(yd[j] - yd[j + 1]) > 1e-9 or not (math.isnan(xd[j + 2]) if j + 2 < len(xd) else True):
                         probs.append(('gantt_buffer_segment', ln.get_label()))
-                    lines.append('STEP %s %s %s %s' % (ln.get_label(), show_z(int(round(xd[j]))), show_z(int(round(xd[j + 1]))),
-                                                     show_z(int(round(yd[j])))))
-        plt.close('all')
+                    if fresh:
+                        lines.append('STEP %s %s %s %s' % (ln.get_label(), show_z(int(round(xd[j]))), show_z(int(round(xd[j + 1]))),
+                                                         show_z(int(round(yd[j])))))
+    plt.close('all')
     return lines, probs
+
+
+def use_solution(sol, work, idx, k):
+    import matplotlib
+    matplotlib.use('Agg')
+    import matplotlib.pyplot as plt
+    from processscheduler.plotter import render_gantt_matplotlib
+    fn = os.path.join(work, 'use_%d_%d_%d' % (os.getpid(), idx, k))
+    calls = [lambda: sol.to_df(), lambda: sol.to_csv(), lambda: sol.to_json(), lambda: sol.to_json(compact=True),
+             lambda: sol.to_json_file(fn + '.json'), lambda: sol.to_excel_file(fn + '.xlsx'),
+             lambda: render_gantt_matplotlib(sol, show_plot=False, render_mode='Resource'),
+             lambda: render_gantt_matplotlib(sol, show_plot=False, render_mode='Task')]
+    for c in calls:
+        try:
+            with warnings.catch_warnings():
+                warnings.simplefilter('ignore')
+                c()
+        except Exception:
+            pass
+    plt.close('all')
+    for ext in ('.json', '.xlsx'):
+        if os.path.exists(fn + ext):
+            os.remove(fn + ext)
 
 
 def observe(args):
@@ -497,6 +543,9 @@ def observe(args):
         kw = dict(max_time=10)
         if has_obj:
             kw['max_iter'] = r.choice([1, 2, 3])
+        if extra == 'export' and r.random() < 0.3:
+            kw['logics'] = r.choice(['QF_LIA', 'QF_IDL', 'QF_UFLIA', 'QF_UFIDL'])
+        out['logics'] = kw.get('logics')
         with contextlib.redirect_stdout(io.StringIO()), warnings.catch_warnings():
             warnings.simplefilter('ignore')
             solver = ps.SchedulingSolver(problem=im.pb, **kw)
@@ -520,6 +569,7 @@ def observe(args):
                     vals_b[tgt.decl().name()] = bool(z3.is_true(v))
             rec = {'report': py_report(sol), 'ivals': vals_i, 'bvals': vals_b,
                    'clauses': clause_checks(prog, sol, delta_us, t0) if extra is None else []}
+            before = list(rec['report'])
             if extra == 'export':
                 ls, pr = export_lines(sol, solver, im, work, idx, nsol)
                 rec['report'] = rec['report'] + ls
@@ -528,6 +578,14 @@ def observe(args):
                 ls, pr = gantt_lines(sol)
                 rec['report'] = rec['report'] + ls
                 rec['clauses'] += pr
+            else:
+                # C11: the report stays the report of this schedule whatever the caller does with it next (every export and
+                # rendering method is called once; what they produce is the business of C16 / C17)
+                use_solution(sol, work, idx, nsol)
+            after = py_report(sol)
+            if after != before:
+                d = [x for x in before if x not in after][:1] + [x for x in after if x not in before][:1]
+                rec['clauses'].append(('solution_changed_by_its_own_exports', ' -> '.join(d)[:200]))
             out['sols'].append(rec)
             nsol += 1
             if nsol >= 3 or r.random() < 0.4:
